@@ -48,6 +48,12 @@ fn main() {
                 skip,
             })
         }
+        Some("corpus") => {
+            for d in corpus::corpus() {
+                println!("{}", d.name);
+            }
+            0
+        }
         Some("selftest-determinism") => {
             let quick = args.iter().any(|a| a == "--quick");
             let mut props: Vec<String> = args[1..].iter().filter(|a| !a.starts_with("--")).cloned().collect();
